@@ -645,6 +645,23 @@ fn to_onode(dict: &JapaneseDictionary, n: &Node) -> ONode {
     ONode { begin: n.begin(), end: n.end(), left: n.left_id(), right: n.right_id(), cost: n.cost(), pos: if w.is_oov() { pos_index(dict, w.word()) } else { 0 }, dict: !w.is_oov() }
 }
 
+/// one morpheme of a result as the Coq tuple (raw word id, begin, end, reported view); character offsets of the original text
+fn morph_term<D: DictionaryAccess>(m: &sudachi::analysis::morpheme::Morpheme<D>) -> String {
+    format!(
+        "({}, {}, {}, mkMV {} {} {} {} {} {} {})",
+        cn(m.word_id().as_raw()),
+        cnat(m.begin_c()),
+        cnat(m.end_c()),
+        cbool(m.is_oov()),
+        cz(m.dictionary_id() as i64),
+        cn(m.part_of_speech_id()),
+        ctext(&m.surface()),
+        ctext(m.normalized_form()),
+        ctext(m.dictionary_form()),
+        ctext(m.reading_form())
+    )
+}
+
 struct CaseOut {
     term: String,
     desc: Value,
@@ -840,6 +857,7 @@ fn run_case(cfg: &Config, text: &str, rng: &mut Rng, verbose: bool) -> CaseOut {
             }
         }
     }
+    let mut morph_terms: Vec<String> = vec![];
     // ---------------- whole lattice through a real tokenization
     let dict_ends: Vec<Vec<usize>> = (0..len)
         .map(|off| {
@@ -918,7 +936,14 @@ fn run_case(cfg: &Config, text: &str, rng: &mut Rng, verbose: bool) -> CaseOut {
             let mut ml = MorphemeList::empty(dict);
             if ml.collect_results(&mut tok).is_ok() {
                 for m in ml.iter() {
+                    morph_terms.push(morph_term(&m));
                     if m.is_oov() {
+                        // the OOV morpheme is one of the lattice's OOV candidates and carries that candidate's part of speech
+                        let (b, e) = (m.begin_c(), m.end_c());
+                        let pidx = pos_index(dict, m.part_of_speech_id() as u32);
+                        if !per.get(b).map(|v| v.iter().any(|n| !n.dict && n.end == e && n.pos == pidx)).unwrap_or(false) {
+                            fails.push(format!("OOV morpheme {}..{} with part of speech {:?} is none of the lattice's OOV candidates", b, e, m.part_of_speech()));
+                        }
                         tags.push("oov_morpheme".into());
                         let surf = m.surface().to_string();
                         let pos_ok = POS_POOL.iter().any(|p| p.iter().zip(m.part_of_speech().iter()).all(|(a, b)| a == b));
@@ -951,7 +976,9 @@ fn run_case(cfg: &Config, text: &str, rng: &mut Rng, verbose: bool) -> CaseOut {
         println!("lattice (nodes by begin): {:?}", lat);
     }
     let term = format!(
-        "check_case {} {} {} {} {} {} {}",
+        "andb (check_morphs {0} {0} {1}) (check_case {2} {3} {4} {5} {6} {7} {8})",
+        ctext(text),
+        clist(morph_terms),
         clist(cats.iter().map(|c| cn(*c))),
         clist(bows.iter().map(|b| cbool(*b).to_string())),
         clist(conts.iter().map(|c| cnat(*c))),
@@ -1124,8 +1151,8 @@ fn normalized_forms_stream(sink: &mut Sink, rng: &mut Rng, args: &Args) {
         let mut tok = StatefulTokenizer::create(&dict, false, Mode::C);
         tok.reset().push_str(&orig);
         let desc = json!({"kind": "c13-forms", "text": orig});
-        let id = sink.case_rust_only(desc, orig != norm);
-        sink.tag("normalized_forms_stream");
+        let mut fails: Vec<String> = vec![];
+        let mut morph_terms: Vec<String> = vec![];
         match catch(|| tok.do_tokenize().map_err(|e| format!("{:?}", e))) {
             Ok(Ok(())) => {
                 let mut ml = MorphemeList::empty(&dict);
@@ -1133,25 +1160,33 @@ fn normalized_forms_stream(sink: &mut Sink, rng: &mut Rng, args: &Args) {
                 let mut surf = String::new();
                 let mut forms = String::new();
                 for m in ml.iter() {
+                    morph_terms.push(morph_term(&m));
                     surf.push_str(&m.surface());
                     if !m.is_oov() {
-                        sink.fail(id, &format!("{:?}: morpheme {:?} is not OOV although the lexicon cannot match", orig, m.surface().to_string()), "");
+                        fails.push(format!("{:?}: morpheme {:?} is not OOV although the lexicon cannot match", orig, m.surface().to_string()));
                         continue;
                     }
                     let nf = m.normalized_form().to_string();
                     if m.dictionary_form() != nf || m.reading_form() != nf {
-                        sink.fail(id, &format!("{:?}: forms of an OOV morpheme differ: {:?} {:?} {:?}", orig, nf, m.dictionary_form(), m.reading_form()), "");
+                        fails.push(format!("{:?}: forms of an OOV morpheme differ: {:?} {:?} {:?}", orig, nf, m.dictionary_form(), m.reading_form()));
                     }
                     if m.dictionary_id() != -1 || m.part_of_speech().iter().zip(POS_POOL[3].iter()).any(|(a, b)| a != b) {
-                        sink.fail(id, &format!("{:?}: OOV morpheme reports dictionary {} / part of speech {:?}", orig, m.dictionary_id(), m.part_of_speech()), "");
+                        fails.push(format!("{:?}: OOV morpheme reports dictionary {} / part of speech {:?}", orig, m.dictionary_id(), m.part_of_speech()));
                     }
                     forms.push_str(&nf);
                 }
                 if surf != orig || forms != norm {
-                    sink.fail(id, &format!("{:?}: surfaces concatenate to {:?}, forms to {:?}, normalised text is {:?}", orig, surf, forms, norm), "");
+                    fails.push(format!("{:?}: surfaces concatenate to {:?}, forms to {:?}, normalised text is {:?}", orig, surf, forms, norm));
                 }
             }
-            other => sink.fail(id, &format!("{:?}: tokenization failed: {:?}", orig, other), ""),
+            other => fails.push(format!("{:?}: tokenization failed: {:?}", orig, other)),
+        }
+        // the model (Model/Oov.v: oov_morpheme) gets the original and the normalised text; characters map one to one
+        let term = format!("check_morphs {} {} {}", ctext(&orig), ctext(&norm), clist(morph_terms));
+        let id = sink.case(term, desc, orig != norm);
+        sink.tag("normalized_forms_stream");
+        for f in fails {
+            sink.fail(id, &f, "");
         }
     }
 }
